@@ -63,7 +63,8 @@ struct HPca : Harness {
     p.seti("const_cols", wr.chance(0.25) ? (int)wr.range(1, std::max(1, pp / 3)) : 0);
     p.seti("transform", (int)wr.below(3));  // C02: 0 permute objects, 1 permute variables, 2 rotate
     p.setd("rho", wr.uniform(0.3, 0.85));
-    p.setd("scale_exp", wr.chance(0.5) ? 1.0 : wr.uniform(-2.0, 3.0));  // overall magnitude of the singular values
+    p.setd("scale_exp", wr.chance(0.5) ? 1.0 : wr.uniform(-2.0, 3.0));
+    p.seti("axis_aligned", wr.chance(0.2) ? 1 : 0);  // overall magnitude of the singular values
     p.setu("data.seed", wr.next() >> 4);
     return p;
   }
@@ -75,6 +76,12 @@ struct HPca : Harness {
       // U diag(s) V' + offsets with singular-value ratios <= rho
       int r = std::min(n, pp);
       LMat U = lrandom_orthogonal(n, dr), V = lrandom_orthogonal(pp, dr);
+      if (p.geti("axis_aligned", 0)) {
+        // the variables ARE the principal axes, in random order and with random signs (orthogonal designs, score matrices of an
+        // earlier decomposition): V is a signed permutation matrix, which is as orthogonal as any other
+        std::vector<int> perm(pp); for (int j = 0; j < pp; j++) perm[j] = j; for (int j = pp - 1; j > 0; j--) std::swap(perm[j], perm[dr.below(j + 1)]);
+        V = lzeros(pp, pp); for (int j = 0; j < pp; j++) V[perm[j]][j] = dr.chance(0.5) ? 1 : -1;
+      }
       double rho = sqrt(p.getd("rho", 0.7));  // eigenvalue ratio rho <=> singular value ratio sqrt(rho)
       std::vector<LD> s(r); LD cur = powl(10.0L, (LD)p.getd("scale_exp", 1.0)) * (1 + dr.unit() * 5);
       for (int k = 0; k < r; k++) { s[k] = cur; cur *= rho * dr.uniform(0.6, 1.0); }
@@ -225,7 +232,13 @@ struct HPca : Harness {
         LMat Q;
         if (tf == 0) { perm.resize(n); for (int i = 0; i < n; i++) perm[i] = i; for (int i = n - 1; i > 0; i--) std::swap(perm[i], perm[dr.below(i + 1)]); for (int i = 0; i < n; i++) X2[i] = X[perm[i]]; }
         else if (tf == 1) { perm.resize(pp); for (int j = 0; j < pp; j++) perm[j] = j; for (int j = pp - 1; j > 0; j--) std::swap(perm[j], perm[dr.below(j + 1)]); for (int i = 0; i < n; i++) for (int j = 0; j < pp; j++) X2[i][j] = X[i][perm[j]]; }
-        else { Q = lrandom_orthogonal(pp, dr); for (int i = 0; i < n; i++) for (int j = 0; j < pp; j++) { LD v = 0; for (int q = 0; q < pp; q++) v += (LD)X[i][q] * Q[q][j]; X2[i][j] = (double)v; } }
+        else {
+          Q = lrandom_orthogonal(pp, dr);
+          if (dr.chance(0.4)) {  // rotate the data into its own principal axes, columns in random order: X Q has the axes as variables
+            std::vector<int> pm(pp); for (int j = 0; j < pp; j++) pm[j] = j; for (int j = pp - 1; j > 0; j--) std::swap(pm[j], pm[dr.below(j + 1)]);
+            for (int i = 0; i < pp; i++) for (int j = 0; j < pp; j++) Q[i][j] = V[i][pm[j]];
+            o.counters["probe.rotation_into_own_axes"]++;
+          } for (int i = 0; i < n; i++) for (int j = 0; j < pp; j++) { LD v = 0; for (int q = 0; q < pp; q++) v += (LD)X[i][q] * Q[q][j]; X2[i][j] = (double)v; } }
         Fit F = fit(p, X2, scaling, npc, nproc, SIM_S0_SEQUENTIAL, false);
         fill_outcome_from_sim(o, F.sr, plan_strategy);
         if (F.rc == SIM_OK && F.out.scores.size() == (size_t)n) {
